@@ -35,6 +35,7 @@ type Config struct {
 	DeadlockOK      bool
 	PreemptBound    int
 	MaxSleeps       int
+	SpinLimit       int
 	Witnesses       int
 	Gen             bool
 	NoCache         bool
